@@ -362,7 +362,13 @@ def history_case(ctx, g):
         for c in range(ncalls):
             d = int(rng.random() < 0.35)
             entry = ["marginal", "rejection", "iterative"][int(rng.choice(3, p=[0.4, 0.4, 0.2]))]
-            spec = hl.gen_spec(rng, N, entry=entry)
+            if c < 3:
+                # stratum: the first three calls of every history cover each entry point, in memory (where the
+                # unit conversion is the sampler's own `pack` call), so that libraries in foreign units meet it
+                entry = ["marginal", "rejection", "iterative"][(c + g["index"]) % 3]
+                spec = hl.gen_spec(rng, N, entry=entry, source="object", in_memory=True)
+            else:
+                spec = hl.gen_spec(rng, N, entry=entry)
             if entry == "rejection":
                 spec["opts"]["return_all_logprobs"] = True
             route = "mem" if spec["in_memory"] else "file"
@@ -379,6 +385,8 @@ def history_case(ctx, g):
             ctx.count(f"history:data{d}")
             if not internal:
                 ctx.count("history:foreign-units-calls")
+                if spec["in_memory"]:
+                    ctx.count(f"history:foreign-units-inmem:{entry}")
             rel = "every likelihood returned in a history equals the pristine value of its row, in input order"
             if entry == "marginal":
                 rows = list(range(N))
@@ -403,10 +411,8 @@ def history_case(ctx, g):
                 if len(ll_maps) == 1:
                     model_calls.append(dict(rows=rows, nb=spec["opts"].get("n_batches"), poolSize=pool.size,
                                             reuse=bool(c % 2), fresh_key=(d, route)))
-                    model_expect.append((np.asarray(out["lls"]["array"][1]), [tuple(int(v) for v in np.atleast_1d(sl)[[0, -1]])
-                                                                              if not isinstance(sl, tuple) else sl
-                                                                              for sl in ll_maps[0]["slices"]],
-                                         ll_maps[0], inp))
+                    sizes = [(sl[1] - sl[0]) if isinstance(sl, tuple) else int(len(sl)) for sl in ll_maps[0]["slices"]]
+                    model_expect.append((np.asarray(out["lls"]["array"][1]), sizes, inp))
         # ---- Lean machine: one op per (data, route) table, calls in order
         import core
         rel_m = "task partition and concatenated values equal the Lean machine's (Batch.batchTasks + Hist.runBatches)"
@@ -417,12 +423,9 @@ def history_case(ctx, g):
                            "calls": [dict(rows=model_calls[i]["rows"], nb=model_calls[i]["nb"], poolSize=model_calls[i]["poolSize"],
                                           reuse=model_calls[i]["reuse"]) for i in sel]})["calls"]
             for i, mo in zip(sel, m):
-                got, slices, mp, inp = model_expect[i]
+                got, obs_sizes, inp = model_expect[i]
                 ctx.evaluated(rel_m, ("hist.run", len(mo["tasks"]) > 1, fk[1]) if distinct(fresh) else None)
                 impl_bits = [int(v) for v in bits(got)]
-                # observed partition: sizes of the tasks in order
-                obs_sizes = [(sl[1] - sl[0]) if isinstance(sl, tuple) and len(sl) == 2 and isinstance(mp["slices"][k], tuple)
-                             else len(np.atleast_1d(mp["slices"][k])) for k, sl in enumerate(slices)]
                 mod_sizes = [b - a for a, b in mo["tasks"]]
                 if impl_bits != mo["lls"] or obs_sizes != mod_sizes:
                     # the predicate itself was decided above (check_lls); a disagreement here with the predicate
@@ -640,6 +643,8 @@ def post(ctx):
     ctx.require("history calls on the in-memory route", sum(v for k, v in c.items() if k.startswith("history:") and k.endswith(":mem")), 5)
     ctx.require("history calls on the second data set", c["history:data1"], 8)
     ctx.require("history calls on a library in foreign units", c["history:foreign-units-calls"], 10)
+    for e in ("marginal", "rejection", "iterative"):
+        ctx.require(f"in-memory {e} calls on a library in foreign units", c[f"history:foreign-units-inmem:{e}"], 2)
     ctx.require("non-trivial likelihood comparisons", c["lls-compared-nontrivial"], 500)
     ctx.require("accepted-set comparisons with 0 < accepted < evaluated", c["paths:nontrivial"], 12)
     ctx.require("in-memory vs cache accepted-set comparisons", c["paths:rejection:mem"] + c["paths:iterative:mem"], 2)
